@@ -708,6 +708,15 @@ impl Pos {
         if !self.unplayable_reasons().is_empty() || !self.material_reachable() {
             return false;
         }
+        // at most two pieces give check, and a double check always involves a line piece (it
+        // arises by discovery, en-passant capture or promotion)
+        let ch = self.checkers();
+        if ch.len() > 2 {
+            return false;
+        }
+        if ch.len() == 2 && !ch.iter().any(|&s| matches!(self.sq[s as usize], Some((_, P::Bishop | P::Rook | P::Queen)))) {
+            return false;
+        }
         // pawns never stand on the back ranks in a position reached by play
         for s in (0..8).chain(56..64) {
             if matches!(self.sq[s], Some((_, P::Pawn))) {
